@@ -1,10 +1,47 @@
-import ErrModel.Basic.RedactT
+import ErrModel.Proofs.LW
 /-
   Bytes and tokens: `unlex` followed by `lex` gives the tokens back unless three adjacent
   plain-byte tokens spell a marker rune (E2 80 B9 / E2 80 BA) — the one situation in which
   a byte string has a marker that no piece of it wrote as a marker.
 -/
 namespace ErrModel
+
+/-- forget the ghost labels -/
+def eraseLabel : Toks → Toks
+  | [] => []
+  | .u c :: r => .b c :: eraseLabel r
+  | x :: r => x :: eraseLabel r
+
+theorem unlex_eraseLabel : (t : Toks) → unlex (eraseLabel t) = unlex t
+  | [] => rfl
+  | .op :: r => by simp [eraseLabel, unlex, unlex_eraseLabel r]
+  | .cl :: r => by simp [eraseLabel, unlex, unlex_eraseLabel r]
+  | .b c :: r => by simp [eraseLabel, unlex, unlex_eraseLabel r]
+  | .u c :: r => by simp [eraseLabel, unlex, unlex_eraseLabel r]
+
+/-- forgetting the labels keeps a well-formed string well-formed -/
+theorem lw_eraseLabel : (t : Toks) → (st st' : Bool) → lw st t = some st' → lw st (eraseLabel t) = some st'
+  | [], st, st', h => by simpa [eraseLabel] using h
+  | .op :: r, st, st', h => by
+    cases st <;> simp [lw] at h; simp [eraseLabel, lw, lw_eraseLabel r true st' h]
+  | .cl :: r, st, st', h => by
+    cases st <;> simp [lw] at h; simp [eraseLabel, lw, lw_eraseLabel r false st' h]
+  | .b c :: r, st, st', h => by
+    simp only [lw] at h
+    split at h
+    · simp at h
+    · rename_i hc; simp only [eraseLabel, lw, hc, if_false]; exact lw_eraseLabel r st st' h
+  | .u c :: r, st, st', h => by
+    simp only [lw] at h
+    split at h
+    · rename_i hc
+      simp only [Bool.and_eq_true, decide_eq_true_eq] at hc
+      obtain ⟨rfl, hcn⟩ := hc
+      simp only [eraseLabel, lw]
+      have : (c = nl && true) = false := by simp [hcn]
+      simp only [this]
+      exact lw_eraseLabel r true st' h
+    · simp at h
 
 /-- does the token list begin with plain bytes spelling a marker? -/
 def spellsAt : Toks → Bool
@@ -42,14 +79,16 @@ theorem lex_b_cons (x : UInt8) (s : Str)
     rfl
   · rename_i hx; simp at hx
 
-theorem lex_unlex : (t : Toks) → NoSpell t → lex (unlex t) = t
-  | [], _ => rfl
-  | .op :: r, h => by
-    rw [unlex, lex_mOpen, lex_unlex r h.2]
-  | .cl :: r, h => by
-    rw [unlex, lex_mClose, lex_unlex r h.2]
-  | .b x :: r, h => by
-    rw [unlex_cons_b, lex_b_cons, lex_unlex r h.2]
+/-- (for label-free token lists; apply to `eraseLabel t`) -/
+theorem lex_unlex : (t : Toks) → (∀ x ∈ t, ∀ c, x ≠ Tok.u c) → NoSpell t → lex (unlex t) = t
+  | [], _, _ => rfl
+  | .op :: r, hu, h => by
+    rw [unlex, lex_mOpen, lex_unlex r (fun x hx => hu x (by simp [hx])) h.2]
+  | .cl :: r, hu, h => by
+    rw [unlex, lex_mClose, lex_unlex r (fun x hx => hu x (by simp [hx])) h.2]
+  | .u x :: r, hu, h => absurd rfl (hu (.u x) (by simp) x)
+  | .b x :: r, hu, h => by
+    rw [unlex_cons_b, lex_b_cons, lex_unlex r (fun x hx => hu x (by simp [hx])) h.2]
     rintro ⟨rfl, c, s, hs, hc⟩
     -- the next two bytes come from two plain-byte tokens: a spelled marker
     have h1 := h.1
@@ -59,6 +98,7 @@ theorem lex_unlex : (t : Toks) → NoSpell t → lex (unlex t) = t
       cases y with
       | op => simp [unlex, mOpen] at hs
       | cl => simp [unlex, mClose] at hs
+      | u y => exact hu (.u y) (by simp) y rfl
       | b y =>
         simp only [unlex_cons_b, List.cons.injEq] at hs
         obtain ⟨rfl, hs⟩ := hs
@@ -68,9 +108,38 @@ theorem lex_unlex : (t : Toks) → NoSpell t → lex (unlex t) = t
           cases z with
           | op => simp [unlex, mOpen] at hs; rcases hc with rfl | rfl <;> simp at hs
           | cl => simp [unlex, mClose] at hs; rcases hc with rfl | rfl <;> simp at hs
+          | u z => exact hu (.u z) (by simp) z rfl
           | b z =>
             simp only [unlex_cons_b, List.cons.injEq] at hs
             obtain ⟨rfl, _⟩ := hs
             rcases hc with rfl | rfl <;> simp [spellsAt] at h1
+
+theorem eraseLabel_noU : (t : Toks) → ∀ x ∈ eraseLabel t, ∀ c, x ≠ Tok.u c
+  | [], x, hx, c => by simp [eraseLabel] at hx
+  | .op :: r, x, hx, c => by
+    simp only [eraseLabel, List.mem_cons] at hx
+    rcases hx with rfl | hx
+    · simp
+    · exact eraseLabel_noU r x hx c
+  | .cl :: r, x, hx, c => by
+    simp only [eraseLabel, List.mem_cons] at hx
+    rcases hx with rfl | hx
+    · simp
+    · exact eraseLabel_noU r x hx c
+  | .b y :: r, x, hx, c => by
+    simp only [eraseLabel, List.mem_cons] at hx
+    rcases hx with rfl | hx
+    · simp
+    · exact eraseLabel_noU r x hx c
+  | .u y :: r, x, hx, c => by
+    simp only [eraseLabel, List.mem_cons] at hx
+    rcases hx with rfl | hx
+    · simp
+    · exact eraseLabel_noU r x hx c
+
+/-- the byte string of a token list lexes back to its tokens (labels forgotten) -/
+theorem lex_unlex_erase (t : Toks) (h : NoSpell (eraseLabel t)) : lex (unlex t) = eraseLabel t := by
+  rw [← unlex_eraseLabel]
+  exact lex_unlex _ (eraseLabel_noU t) h
 
 end ErrModel
